@@ -207,6 +207,9 @@ func (g *genState) delSet() []int64 {
 			set[int64(g.rng.Intn(int(hi)))] = true
 		}
 	}
+	if g.rng.Intn(12) == 0 && len(set) > 0 {
+		set[int64(-1-g.rng.Intn(2))] = true // a relative offset among ordinary ones: the whole call is rejected
+	}
 	var S []int64
 	for o := range set {
 		S = append(S, o)
